@@ -37,13 +37,43 @@ LOCATION_FN = {
 
 
 def discover_validators(F):
-    """validate_* functions in mqtt::packet::v5_0 that take the property list (discovered, then matched to locations)."""
+    """Property validators of the packet layer, discovered by signature (a free function taking a property list and
+    returning Result<.., MqttError>), not by name."""
+    return {p: f for p, f in F.fns.items() if conn.is_prop_validator(f)}
+
+
+def packet_entries(F, loc):
+    """(parse functions, builder validate/build functions) of the v5.0 packet module a location belongs to."""
+    mod = "connect" if loc == "will" else loc
+    pre = "mqtt::packet::v5_0::%s::" % mod
+    parse = [p for p in F.fns if p.startswith(pre) and p.endswith("::parse") and "Builder" not in p]
+    build = [p for p, f in F.fns.items() if p.startswith(pre) and "Builder" in f.get("impl_self", "") and f.get("name") in ("build", "validate")]
+    return parse, build
+
+
+def builder_through(g):
+    return g.get("kind") == "Closure" or explore.small_private_helper(g) or ("Builder" in g.get("impl_self", "") and not g.get("pub"))
+
+
+def locate(F, found):
+    """location -> validator path.  The conventional name when it exists; otherwise the one validator that the
+    location's parse function reaches (directly, through private helpers, or as a function pointer) - e.g. a
+    validator shared by several packet kinds.  'connect' and 'will' live in one module and are told apart by name only."""
     out = {}
-    for f in F.fns.values():
-        if f.get("kind") == "Fn" and f["path"].startswith("mqtt::packet::v5_0::") and re.search(r"::validate_\w+$", f["path"]):
-            if any("mqtt::packet::property::Property" in t for t in f["locals"][1:f["argc"] + 1]):
-                out[f["path"]] = f
-    return out
+    how = {}
+    for loc, path in LOCATION_FN.items():
+        if path in found:
+            out[loc] = path
+            how[loc] = "by name"
+            continue
+        if loc in ("connect", "will"):
+            continue
+        parse, _ = packet_entries(F, loc)
+        cand = sorted(conn.validators_reached(F, parse))
+        if len(cand) == 1:
+            out[loc] = cand[0]
+            how[loc] = "the validator reached from %s" % parse[0].split("mqtt::packet::")[-1]
+    return out, how
 
 
 def element_variants(F, p, interned):
@@ -88,18 +118,24 @@ def check(run, F, tier):
     allv = [v["name"] for v in F.adt(PROP)["variants"]]
     r1 = run.rule("C18-R1", "placement and multiplicity table equals MQTT 5.0 Table 2-4", floor=27 * 14, kind="E")
     found = discover_validators(F)
-    missing = [l for l, p in LOCATION_FN.items() if p not in found]
-    extra = [p for p in found if p not in LOCATION_FN.values()]
+    LOC, how = locate(F, found)
+    run.cov_extra["validators"] = {l: "%s (%s)" % (p.split("mqtt::packet::")[-1], how[l]) for l, p in sorted(LOC.items())}
+    missing = [l for l in LOCATION_FN if l not in LOC]
+    # a validator that a packet's parser or builder reaches without going through a mapped one has no oracle column
+    reached = {}
+    for loc in LOCATION_FN:
+        parse, build = packet_entries(F, loc)
+        reached.update(conn.validators_reached(F, parse))
+        reached.update(conn.validators_reached(F, build, through=builder_through))
+    extra = [p for p in sorted(reached) if p not in LOC.values()]
     for l in missing:
-        r1.violation("location:" + l, "validator of location %s not found (%s)" % (l, LOCATION_FN[l]))
+        r1.violation("location:" + l, "validator of location %s not found (%s, nor a unique validator reached from its parser)" % (l, LOCATION_FN[l]))
     for p in extra:
-        r1.violation("unmapped:" + p.split("::")[-1], "property validator %s is not mapped to a location of the oracle table" % p)
+        r1.violation("unmapped:" + p.split("::")[-1], "property validator %s is applied by a packet but not mapped to a location of the oracle table" % p)
     for v in allv:
         if v not in props:
             r1.violation("unknown-property:" + v, "Property::%s is not in the oracle table" % v)
-    for loc, path in sorted(LOCATION_FN.items()):
-        if path not in found:
-            continue
+    for loc, path in sorted(LOC.items()):
         # Exact evaluation on concrete lists: the validator is run on every list [v], [v, v], [v, UserProperty] and
         # [UserProperty, v] whose elements are Property variants with symbolic payloads.  Iteration over such a list is
         # element-by-element whatever the idiom (for loop, all / any / filter().count() / try_for_each ...), so the
@@ -238,55 +274,53 @@ def check(run, F, tier):
                 r2.ok(key, sorted(got))
 
     # ------------------------------------------------------------------ R3
-    r3 = run.rule("C18-R3", "each location's validator is called (and its error propagated) by both the builder and the parser", floor=14 * 2)
-    cg = {}
-    for f in F.fns.values():
-        for b in f["blocks"]:
-            t = b["term"]
-            if t["k"] == "call" and "fn" in t["func"].get("const", {}):
-                fi = t["func"]["const"]["fn"]
-                cp = (fi.get("res") or {}).get("path", fi["path"])
-                cg.setdefault(cp, []).append((f, b, t))
-    for loc, path in sorted(LOCATION_FN.items()):
-        sites = cg.get(path, [])
-        kinds = {"parse": [], "build": []}
-        for f, b, t in sites:
-            nm = f.get("name", "")
-            if nm == "parse":
-                kinds["parse"].append((f, b, t))
-            elif nm in ("validate", "build"):
-                kinds["build"].append((f, b, t))
-        for k in ("parse", "build"):
-            key = "%s/%s" % (loc, k)
-            if not kinds[k]:
-                r3.violation(key, "%s is not called from the %s path of its packet" % (path.split("::")[-1], "parser" if k == "parse" else "builder"))
+    r3 = run.rule("C18-R3", "each location's validator is applied (and its error propagated) by both the builder and the parser", floor=14 * 2)
+    RES = "std::result::Result"
+
+    def propagated(entry, V, inline):
+        """(accepting paths that applied V, those on which V's verdict was not required to be Ok, rejecting paths on V's Err)"""
+        ex = explore.Explorer(F, inline_pred=inline)
+        n_ok = n_bad = n_err = 0
+        for p in ex.run(entry):
+            if p.kind != "return" or not (p.ret and p.ret[0] == "agg" and p.ret[1] == RES):
                 continue
-            # result must flow into a Try::branch / match (propagated), i.e. dest is used by a later call/switch
-            f, b, t = kinds[k][0]
-            dest = t["dest"]["l"]
-            used = dest == 0          # returned as the function's own result
-            # ... or moved into the return place (possibly through one temporary)
-            alias = {dest}
-            for _ in range(3):
-                for b2 in f["blocks"]:
-                    for s in b2["stmts"]:
-                        if s["k"] == "assign" and s["rv"]["k"] == "use":
-                            pl = s["rv"]["op"].get("move") or s["rv"]["op"].get("copy")
-                            if pl and pl["l"] in alias and not pl["p"] and not s["lhs"]["p"]:
-                                alias.add(s["lhs"]["l"])
-            if 0 in alias:
-                used = True
-            for b2 in f["blocks"]:
-                tt = b2["term"]
-                if tt["k"] == "call":
-                    for a in tt["args"]:
-                        pl = a.get("move") or a.get("copy")
-                        if pl and pl["l"] in alias:
-                            used = True
-                for s in b2["stmts"]:
-                    if s["k"] == "assign" and s["rv"]["k"] == "discr" and s["rv"]["place"]["l"] in alias:
-                        used = True
-            if used:
-                r3.ok(key, f["path"].split("::")[-2] + "::" + f["path"].split("::")[-1])
+            vc = [e for e in p.effects if e[0] == "call" and e[1] == V and e[4][0] == "sym"]
+            if not vc:
+                continue
+            verdicts = [conn.possible(F, p, e[4][1], RES) for e in vc]
+            if p.ret[2] == "Ok":
+                n_ok += 1
+                if any(v != {"Ok"} for v in verdicts):
+                    n_bad += 1
+            elif any(v == {"Err"} for v in verdicts):
+                n_err += 1
+        return n_ok, n_bad, n_err
+
+    nv = conn.not_validator_inline(F)
+    nvb = lambda ex, callee, info: (nv(ex, callee, info) or explore.default_inline(ex, callee, info)) and not conn.is_prop_validator(callee)
+    for loc, V in sorted(LOC.items()):
+        parse, build = packet_entries(F, loc)
+        for k, entries, through, inline in (("parse", parse, None, nv), ("build", build, builder_through, nvb)):
+            key = "%s/%s" % (loc, k)
+            who = "parser" if k == "parse" else "builder"
+            if V not in conn.validators_reached(F, entries, through=through):
+                r3.violation(key, "%s is not applied on the %s path of its packet" % (V.split("::")[-1], who))
+                continue
+            tot = [0, 0, 0]
+            try:
+                for en in entries:
+                    if F.fns[en].get("name") == "validate" and k == "build" and any(F.fns[x].get("name") == "build" for x in entries):
+                        continue          # reached through build()
+                    r = propagated(en, V, inline)
+                    tot = [a + b for a, b in zip(tot, r)]
+            except explore.ExploreError as e:
+                r3.violation(key, "cannot explore the %s of %s: %s" % (who, loc, e))
+                continue
+            if tot[0] == 0:
+                r3.violation(key, "no accepting %s path of %s applies %s" % (who, loc, V.split("::")[-1]))
+            elif tot[1]:
+                r3.violation(key, "the verdict of %s is ignored on %d accepting %s path(s) of %s" % (V.split("::")[-1], tot[1], who, loc))
+            elif tot[2] == 0:
+                r3.violation(key, "no %s path of %s fails when %s fails" % (who, loc, V.split("::")[-1]))
             else:
-                r3.violation(key, "result of %s is dropped in %s" % (path.split("::")[-1], f["path"]))
+                r3.ok(key, {"accepting_paths_applying": tot[0], "rejecting_on_err": tot[2]})
